@@ -142,7 +142,7 @@ def run_ops(h, ops, V, stats, inputs, snap, xrng, scribble_ok=False):
                 lc.op_advance(h, op[1])
             elif name == "exchange":
                 g = np.random.Generator(np.random.PCG64([op[1], 17]))
-                pos = h.target.draw(g, h.T if h.cfg["target"]["kind"] != "banana" else 1.0)
+                pos = h.foreign_point(h.target.draw(g, h.T if h.cfg["target"]["kind"] != "banana" else 1.0))
                 L = h.target.logpdf(pos)
                 lc.op_exchange(h, pos, L)
                 S, P = h.rows()
